@@ -22,7 +22,7 @@ Section EquivIter.
                   is_default len capacity alignment vec_handle hdr_block
                   data as_ptr set_len add_len slot_read padd
                   get_block put_block set_handle
-                  drain_of into_of set_drain_pos set_drain_end set_into_pos ptr_lt
+                  drain_of into_of set_drain_pos set_drain_end set_into_pos ptr_lt ptr_diff
                   nth_error heap vecs].
 
   (* ---- reads do not change the state ---- *)
@@ -63,6 +63,11 @@ Section EquivIter.
     unfold ptr_lt. destruct p as [| | |b o i], q as [| | |b' o' j]; try apply ro_ret; try apply ro_ub.
     destruct (Nat.eqb b b'); [apply ro_ret|apply ro_ub].
   Qed.
+  Lemma ro_ptr_diff p q : ro (ptr_diff p q).
+  Proof.
+    unfold ptr_diff. destruct p as [| | |b o i], q as [| | |b' o' j]; try apply ro_ret; try apply ro_ub.
+    destruct (Nat.eqb b b'); [apply ro_ret|apply ro_ub].
+  Qed.
   Lemma ro_elt_block p : ro (elt_block cfg p).
   Proof.
     unfold elt_block. destruct p as [| | |b o i]; try apply ro_ub.
@@ -82,6 +87,7 @@ Section EquivIter.
            | H : drain_of _ ?s = (_, ?s') |- _ => is_var s'; pose proof (ro_drain_of _ _ _ _ H); subst s'
            | H : into_of _ ?s = (_, ?s') |- _ => is_var s'; pose proof (ro_into_of _ _ _ _ H); subst s'
            | H : ptr_lt _ _ ?s = (_, ?s') |- _ => is_var s'; pose proof (ro_ptr_lt _ _ _ _ _ H); subst s'
+           | H : ptr_diff _ _ ?s = (_, ?s') |- _ => is_var s'; pose proof (ro_ptr_diff _ _ _ _ _ H); subst s'
            | H : slot_read _ _ ?s = (_, ?s') |- _ => is_var s'; pose proof (ro_slot_read _ _ _ _ H); subst s'
            | H : is_default _ ?s = (_, ?s') |- _ => is_var s'; pose proof (ro_is_default _ _ _ _ H); subst s'
            | H : len _ ?s = (_, ?s') |- _ => is_var s'; pose proof (ro_len _ _ _ _ H); subst s'
@@ -98,6 +104,40 @@ Section EquivIter.
     runm drain__Drain__next_back_ast [iter_val i] s = lift_m (drain_next_back_at cfg i) opt_elem_val s.
   Proof.
     unfold runm. evi. cbv [drain_next_back_at bind ret lift_m opt_elem_val]. symr.
+  Qed.
+
+  (* Splice shares Drain's cursors: the same two bodies *)
+  Lemma splice_next_equiv i s :
+    runm splice__Splice__next_ast [iter_val i] s = lift_m (drain_next_at cfg i) opt_elem_val s.
+  Proof.
+    unfold runm. evi. cbv [drain_next_at bind ret lift_m opt_elem_val]. symr.
+  Qed.
+
+  Lemma splice_next_back_equiv i s :
+    runm splice__Splice__next_back_ast [iter_val i] s = lift_m (drain_next_back_at cfg i) opt_elem_val s.
+  Proof.
+    unfold runm. evi. cbv [drain_next_back_at bind ret lift_m opt_elem_val]. symr.
+  Qed.
+
+  (* size_hint: (end as usize - pos as usize) / size_of::<T>() *)
+  Definition hint_val (n : Z) : val := VTuple [VInt n; VCtor "Some" [VInt n]].
+
+  Lemma drain_size_hint_equiv i s :
+    0 < esz cfg ->
+    runm drain__Drain__size_hint_ast [iter_val i] s = lift_m (drain_hint_at i) hint_val s.
+  Proof.
+    intros He. unfold runm. evi. cbv [drain_hint_at bind ret lift_m hint_val].
+    assert (E0 : (esz cfg =? 0) = false) by (apply Z.eqb_neq; lia). rewrite E0.
+    symr; rewrite Z.div_mul by lia; reflexivity.
+  Qed.
+
+  Lemma splice_size_hint_equiv i s :
+    0 < esz cfg ->
+    runm splice__Splice__size_hint_ast [iter_val i] s = lift_m (drain_hint_at i) hint_val s.
+  Proof.
+    intros He. unfold runm. evi. cbv [drain_hint_at bind ret lift_m hint_val].
+    assert (E0 : (esz cfg =? 0) = false) by (apply Z.eqb_neq; lia). rewrite E0.
+    symr; rewrite Z.div_mul by lia; reflexivity.
   Qed.
 
   Lemma into_next_equiv i s :
